@@ -84,6 +84,7 @@ func (c spatialCase) locality() (w []float64, dense *mat.Dense, band mat.Matrix)
 
 type moranRef struct {
 	I, V, Z          float64
+	VnoN             float64 // the variance with the kurtosis term lacking its factor n (recorded finding)
 	tolI, tolV, tolZ float64
 	ok, okV          bool
 }
@@ -153,6 +154,7 @@ func moranFormula(x, w []float64, n int) moranRef {
 	cc := ndd.subf(1).mul(ndd.subf(2)).mul(ndd.subf(3)).mul(s0s)
 	V := a.sub(b).div(cc).subf(E * E)
 	res.V = V.f()
+	res.VnoN = a.sub(b.div(ndd)).div(cc).subf(E * E).f()
 	absA := nf * (ta.abs().f() + nf*s2.f() + 3*s0s.f())
 	absB := b2.f() * (tb.f() + 2*nf*s2.f() + 6*s0s.f())
 	rb2 := (nf+8)*u + 4*em*az3/m4.f() + 2*eDen/Den
@@ -198,6 +200,12 @@ func checkSpatial(c spatialCase) *vk.Failure {
 				}
 			}
 			if !closeTo(gv, ref.V, ref.tolV) {
+				// Known finding: the kurtosis term lacks its factor n. Any other
+				// deviation is reported separately so that the recorded finding does
+				// not mask further defects in the variance computation.
+				if !closeTo(gv, ref.VnoN, ref.tolV) {
+					return vk.Failf("morans-variance-other", "Var(I)=%v, randomisation variance %v, variance with b2/n %v %s", gv, ref.V, ref.VnoN, ctx)
+				}
 				deferred = vk.Failf("morans-variance", "Var(I)=%v, randomisation variance %v (tol %.3g); z=%v want %v %s", gv, ref.V, ref.tolV, gz, ref.Z, ctx)
 			} else if f := failClose("morans-z", gz, ref.Z, ref.tolZ, ctx); f != nil {
 				return f
